@@ -548,6 +548,14 @@ LitClass(l) ==
 (***************************************************************************)
 RadixOne(bits, k) == RoundP(1, bits * k)
 RadixMax(bits, k) == IF bits * k >= 1024 THEN Ovf ELSE Sub(P(1, bits * k), One)
+\* a digit string of k digits whose value is (2^54 - 1) * 2^j: 54 one bits, then zeros.  It lies exactly
+\* half-way between two doubles and the even neighbour is the upper one, 2^(54 + j): the string
+\* "fffffffffffffc" + zeros (hex, 4k bits) or "1" + seventeen "7" + "6" + zeros (octal, 3k - 2 bits).
+\* At 1024 bits the correctly rounded value does not exist (overflow) although the digits, cut off
+\* after 53 bits, would still denote a finite double.
+RadixTieMinK(bits) == IF bits = 4 THEN 14 ELSE 19
+RadixTieBits(bits, k) == IF bits = 4 THEN 4 * k ELSE 3 * k - 2
+RadixTie(bits, k) == RoundP(1, RadixTieBits(bits, k))
 
 (***************************************************************************)
 (* Laws checked by TLC on the specification itself                         *)
@@ -742,6 +750,8 @@ LitShiftOK(l) ==
 LawLit(l) == ResOK(LitClass(l)) /\ LitShiftOK(l)
 
 LawRadix(bits, k) ==
+  /\ (k >= RadixTieMinK(bits) => ((RadixTie(bits, k) = Ovf) <=> RadixTieBits(bits, k) >= 1024))
+  /\ (k >= RadixTieMinK(bits) /\ bits = 4 => RadixTie(bits, k) = RadixOne(bits, k))   \* rounds up to 16^k
   /\ ((RadixOne(bits, k) = Ovf) <=> (RadixMax(bits, k) = Ovf))
   /\ ((RadixOne(bits, k) = Ovf) <=> bits * k >= 1024)
   /\ (bits * k <= 53 => Compatible(AddR(RadixMax(bits, k), One), RadixOne(bits, k)))      \* exact below 2^53
